@@ -63,9 +63,13 @@ def get_passes():
             if mname not in late:
                 main.append(mname)
 
+    # The last pass has to contain everything any earlier pass may propose,
+    # including the binary reduction restricted to assertions from the first
+    # pass: otherwise a simplification that only becomes possible after later
+    # passes changed the input is never tried again.
     return prelude + [
         mutators.get_mutators(main),
-        mutators.get_mutators(late + main),
+        mutators.get_mutators(late + main) + prelude[0][0],
     ]
 
 
